@@ -10,6 +10,9 @@ check_and_boost / clear_all of a PriorityInheritance. Roots vary priorities (low
 lowest = youngest, ties, a negative one), start instants (distinct / equal), the preemptible
 subset, the watchdog's timeout options (None / never firing), the watchdog_exempt flag, and a
 judged prefix that pre-positions contention, a 2-cycle, a 3-cycle or two overlapping cycles.
+Deep families (3 operations, 2 resources, preemption): the alphabet without restarts is searched to
+its FIXPOINT - histories of any length - for every assignment of two priority levels to three
+operations of different ages (thorough: also three levels, re-entrant holds, boosts, one restart).
 
 Reference (written from the statement, fed ONLY by the results of the public calls): the owner
 and hold count of r follow the LockResults / release results / ends of operations; op X
@@ -21,7 +24,9 @@ cycle; every reported agent is live and every reported (waiter, blocking, resour
 reference edge; asking twice gives the same report and stats()['pending_deadlocks'] gives the
 same verdict. After watchdog.execute(): exactly the reported cycle loses its lowest-priority /
 oldest member (ties: any tied member; after a boost: lowest as started or lowest as boosted),
-which owns nothing and is no longer active.
+which owns nothing and is no longer active; a 'deadlock' kill without a real cycle, or of an
+operation that is on no real cycle, is a violation. Where the reported cycle is wrong (such a state
+is reported and not expanded) watchdog.execute() is applied to copies of that state and judged too.
 
 Finding keys. When the verdicts disagree because the implementation's recorded edge set has
 drifted from the reference graph, the key is the *maintenance step that made the involved
@@ -622,17 +627,24 @@ def run(ctx):
              "PriorityInheritance.check_and_boost / clear_all} applied to the real CellCycleController (+1 s virtual time "
              "per step; roots vary priorities, start instants, preemptible subset, watchdog timeout options, "
              "watchdog_exempt, and a judged pre-positioning prefix: contention / 2-cycle / 3-cycle / two overlapping "
-             "cycles); after EVERY transition check_deadlock() (asked twice, and through stats()) is compared with a "
+             "cycles; the '...-to-fixpoint' plans drop restarts (thorough: allow one) from the alphabet and run until no "
+             "new canonical state appears: all histories of any length over {acquire, release by owner / by others, "
+             "release_all, complete, abort, watchdog x2} for 3 operations of distinct ages, 2 resources, every "
+             "assignment of 2 priority levels (thorough: 3 levels, hold count 2, boosts) and preemptible subsets); "
+             "after EVERY transition check_deadlock() (asked twice, and through stats()) is compared with a "
              "wait-for graph recomputed from the RESULTS of the public calls only (owner+hold count per resource, blocked "
              "requests, live operations); distinct/non-trivial = distinct canonical state (age ranks and dict order of "
              "live ops, lock owners+hold counts, reference owners, per-op priority/acquired/pending lists, reference "
              "waits, recorded edges in insertion order, provenance of differing edges, active boosts, kill history of "
-             "each watchdog, registered resources); transitions that violate are reported and not expanded",
+             "each watchdog - in the fixpoint plans: the set of ids each watchdog killed -, registered resources); "
+             "transitions that violate are reported and not expanded; on a state whose reported cycle is wrong "
+             "watchdog.execute() is judged on copies (no kill without a real cycle, victim on a real cycle)",
         exhaustive=exhaustive,
         depth_bounded=True,
         plans=per,
         prefix_steps_judged=tot["prefix_steps"],
         max_reentrant_hold=MAX_HOLD,
+        canon_pairs_validated_per_plan=VALIDATE[ctx.tier],
     )
     ctx.note("reading: an operation whose acquire returned BLOCKED keeps waiting for that resource until it obtains it or "
              "ends, also across a release and re-acquisition by a third operation (it is still unserved and still on the "
@@ -643,7 +655,10 @@ def run(ctx):
              "boosted value, the stronger single-reading assertion is not made); an equal start instant / equal priority "
              "makes every tied member an acceptable victim")
     ctx.assumptions += [
-        "histories are bounded by the per-plan depth (all operations already started); no fixpoint is claimed",
+        "histories are bounded by the per-plan depth (all operations already started); a fixpoint is claimed only for the "
+        "plans named '...-to-fixpoint' (see plans[*].fixpoint), whose alphabet has no (thorough: at most one) restart",
+        "fixpoint plans: a watchdog's memory of earlier kills is abstracted to the set of killed ids (equal futures of "
+        "merged states are re-checked on sampled pairs: validate_canon)",
         "watchdog timeouts that fire are not part of this alphabet (the timeout options are None or ~10 years): the only "
         "watchdog events are DEADLOCK events; operations stay in phase G0 (advance() is not called)",
         "ResourceLock.waiting_list is never read by the controller/watchdog and is left out of the canonical state",
